@@ -319,7 +319,7 @@ func TestVerifC39(t *testing.T) {
 		r.Transition(len(s.Choices()) + 1)
 		rp := c39Replay{sc, s.Choices(), bound}
 		fail := func(kind, what string) {
-			r.ViolationMin(kind, len(s.Choices()), fmt.Sprintf("%s | %s %s", sc.key(), kind, s.DevTrace()), what+" [schedule "+s.Trace()+"]", rp)
+			r.ViolationMin(kind, c39Size(s.Choices()), fmt.Sprintf("%s | %s %s", sc.key(), kind, s.DevTrace()), what+" [schedule "+s.Trace()+"]", rp)
 		}
 		if p, stack := s.Failed(); p != nil {
 			fail("panic", fmt.Sprintf("panic: %v\n%s", p, stack))
@@ -418,4 +418,16 @@ func TestVerifC39(t *testing.T) {
 		r.Set("max_bound", fmt.Sprint(maxBound))
 		r.Set("scenarios", fmt.Sprint(len(scs)))
 	}
+}
+
+// c39Size orders counterexamples: fewest non-default choices (deviations, preemptions)
+// first, then the shortest script.
+func c39Size(choices []int) int {
+	n := 0
+	for _, c := range choices {
+		if c != 0 {
+			n++
+		}
+	}
+	return n*1000 + len(choices)
 }
